@@ -417,6 +417,7 @@ def run(ctx):
                 continue
             rows.append((label, c_err(ex), got))
         per_site[site] = rows
+    ctx.extra["sites_skipped"] = ["%s (%s:%d): %s" % x for x in translate.skipped_log]
     ctx.extra["sites_extracted"] = names
     ctx.extra["sites_driven"] = list(DRIVERS)
     ctx.exhaustive = True
